@@ -58,6 +58,7 @@ class World:
         import canopen
         simenv.new_world()
         self.bus = simenv.SimBus("inline")
+        self.bus.reuse_rx = True         # the interface re-uses its receive buffer
         self.m, self.s = canopen.Network(), canopen.Network()
         self.bus.attach(self.m, "master")
         self.bus.attach(self.s, "slave")
